@@ -40,10 +40,13 @@ def c_safe_norm(x, axis=None):
   return P_norm(x)
 
 
-def new_interp(repo=None, contracts=True):
+def new_interp(repo=None, contracts=True, reset=True):
+  """reset=False keeps the atom table (and with it the images tied to atoms, e.g. the sines / cosines of
+  refkin.tie_angle) -- for a second interpreter inside one random-interpretation session."""
   if repo is not None:
     avn.set_repo(repo)
-  avn.reset_atoms()
+  if reset:
+    avn.reset_atoms()
   I = Interp()
   if contracts:
     I.contracts[(MA, 'normalize')] = c_normalize
